@@ -1,5 +1,6 @@
 import DilithiumVerif.Impl.Sign
 import DilithiumVerif.Lemmas.Basic
+import DilithiumVerif.Lemmas.KeygenRel
 /-
   C04 — Key generation is the specification's function of the seed.
   (first instalment: structural theorems about the model's keypair; Spec.KeyGen refinement follows)
@@ -27,5 +28,20 @@ theorem keypair_unseeded (p : Params) (tape : Tape) (h : SEEDBYTES ≤ tape.leng
   unfold keypair random_bytes
   have hl : (tape.take SEEDBYTES).length = SEEDBYTES := by simp [List.length_take, Nat.min_eq_left h]
   simp only [h, if_true, hl]
+
+/-! ## The algebraic relation between the two keys -/
+
+open DV.Complete in
+/-- **Key relation.** For each of the six parameter sets and every seed on which the key-generation core returns
+    (ρ, K, s1, s2, t1, t0): expanding ρ gives a well-formed K×L matrix Â with entries in [0, q); s1 ∈ [−4,4]^{256·L},
+    s2 ∈ [−4,4]^{256·K}; t1 ∈ [0, 2^10)^{256·K}, t0 ∈ (−2^12, 2^12]^{256·K}; and for every row r and every NTT point i
+      2^13·t1_r(ρ_i) + t0_r(ρ_i) = Σ_j Â_{r,j}[i]·s1_j(ρ_i) + s2_r(ρ_i)   in ℤ/q
+    (`Complete.KeyRel`), i.e. t1·2^13 + t0 = A·s1 + s2 in ℤ_q[X]/(X^256+1) by C13 (the 256 evaluations determine the
+    polynomial: `PolySem.Ev_inj`). No arithmetic step of key generation overflows (the statement is about the
+    checked-semantics model: a fault would make `keygen_core` return an error, and each step is shown to succeed). -/
+theorem keygen_relation (p : Params) (hp : p ∈ allParams) (seed rho key : List Nat) (s1 s2 t1 t0 : PolyVec)
+    (h : keygen_core p seed = .ok (rho, key, s1, s2, t1, t0)) :
+    ∃ mat, matrix_expand p FUEL rho = .ok mat ∧ KeyFacts p mat s1 s2 t1 t0 :=
+  keygen_facts p hp seed rho key s1 s2 t1 t0 h
 
 end DV.C04
